@@ -43,4 +43,9 @@ example : decode .message (encode ⟨1, 2, 3⟩ (.message 1 2 3 (.u16 0xbeef))) 
 /-- every encoder writes and every decoder checks the code constant of its own kind; the sub-codec tags are the model's -/
 theorem C03_src_codecs : (SrcTie.constUseOk && SrcTie.bcmTagsOk && SrcTie.relayTagsOk) = true := by decide
 
+/-- the model's `encode` writes, for every kind, the fields every `to_packet` in `src/event/*.rs` writes — in the source's
+order and widths, with the source's device-address field — and the model's `decode` reads every field from the offset
+and width every `try_from_packet` reads it from (both translated from the source text in terms of the Rust field names) -/
+theorem C03_src_layouts : (SrcTie.encoderLayoutOk && SrcTie.decoderLayoutOk) = true := by decide
+
 end Ross.Props
